@@ -80,6 +80,7 @@ type Stream struct {
 	maxRetryRoutines int32         // Maximum retry goroutine limit
 	stopped          int32         // Stop status flag using atomic operations
 	startMu          sync.Mutex    // serializes Start's stopped-check+Add with Stop's flag set
+	stopMu           sync.Mutex    // held by the Stop call that tears down; concurrent Stop calls wait on it
 	log              logger.Logger // per-instance logger; set at construction, immutable after
 
 	// lifecycle tracks goroutines that run user code or sinks (data processor,
@@ -264,8 +265,14 @@ func (s *Stream) Stop() {
 	s.startMu.Lock()
 	if !atomic.CompareAndSwapInt32(&s.stopped, 0, 1) {
 		s.startMu.Unlock()
-		return // Already stopped, return directly
+		// Already stopped or stopping. Stop is a barrier for every caller: wait for a
+		// teardown still in progress, so no sink runs after this call returns either.
+		s.stopMu.Lock()
+		s.stopMu.Unlock()
+		return
 	}
+	s.stopMu.Lock() // taken before startMu is released so a concurrent Stop cannot slip past it
+	defer s.stopMu.Unlock()
 	s.startMu.Unlock()
 
 	close(s.done)
